@@ -24,4 +24,6 @@ var repoSnippets = []string{
 	"#!/usr/bin/env elps\n; Copyright © 2018 The ELPS authors\n\n(use-package 'testing)\n\n(test \"dump\"\n  (assert-string= \"\"\"{\"a\":1}\"\"\" (to-string (json:dump-bytes (sorted-map \"a\" 1))))\n  ; floats\n  (assert-string= \"1.5\" (json:dump-string 1.50))   ; trailing zero\n  (assert-equal #xFF (json:load-string \"255\")))\n",
 	"(test-let \"handlers\" ((x 1)\n                      (y '(1 2 3)))\n  (handler-bind ((condition (lambda (c &rest _)\n                              ; swallow\n                              c)))\n    (error 'boom \"x\" 1.5e3 -2))\n  (assert (all? #'int? y))\n  (thread-first x\n                (+ 1)     ; add\n                (* 2)))   ; double\n",
 	"(defmacro m (x &rest ys)\n  (quasiquote (list (unquote x)\n                    (unquote-splicing ys))))\n\n(cond\n  ((< a b) \"lt\")   ; less\n  ((> a b) \"gt\")\n  (else \"eq\")\n  ; done\n  )\n(funcall (lisp:function +) 1 2)\n((lisp:expr (+ % %2)) 1 2) '''deep\n",
+	// thread-first / thread-last: aligned call, then a call whose first argument is wrapped
+	"(defun total (xs)\n  (thread-last xs\n               (map 'list #'price)\n               (foldl #'+ 0)))\n\n(defun total2 (xs)\n  (thread-last\n    xs\n    (map 'list #'price)   ; each\n    (foldl #'+ 0)))\n\n(thread-first m\n              (assoc \"a\" 1)\n              (assoc \"b\" 2))\n(thread-first\n  m\n  (assoc \"c\" 3))\n",
 }
